@@ -1,7 +1,7 @@
 //! C20 harness: the real handle_peer_message / filter_peer, observed at the peer of a scripted
 //! connection.  Result lines start with "R " (the crate prints a freshly created id on stdout).
 //!
-//!   p <iface|-> <member|-> <typ c|s|r|e> <serial> <sender|->
+//!   p <iface|-> <member|-> <typ c|s|r|e> <serial> <sender|-> <reply serial of the incoming message|->
 //!        handle_peer_message on a message with that header, then a marker signal; everything
 //!        the peer receives before the marker is what the call wrote
 //!   u <12 bytes hex> <12 bytes hex>
@@ -152,7 +152,7 @@ fn opt_string(s: &str) -> Option<String> {
     }
 }
 
-fn make_msg(iface: &str, member: &str, typ: &str, serial: u32, sender: &str) -> MarshalledMessage {
+fn make_msg(iface: &str, member: &str, typ: &str, serial: u32, sender: &str, rs: &str) -> MarshalledMessage {
     MarshalledMessage {
         typ: match typ {
             "c" => MessageType::Call,
@@ -166,6 +166,7 @@ fn make_msg(iface: &str, member: &str, typ: &str, serial: u32, sender: &str) -> 
             object: Some("/x".to_string()),
             serial: NonZeroU32::new(serial),
             sender: opt_string(sender),
+            response_serial: if rs == "-" { None } else { NonZeroU32::new(rs.parse().unwrap()) },
             ..Default::default()
         },
         flags: 0,
@@ -239,7 +240,7 @@ fn now_secs() -> u64 {
 }
 
 fn get_id_msg() -> MarshalledMessage {
-    make_msg(&hex(b"org.freedesktop.DBus.Peer"), &hex(b"GetMachineId"), "c", 77, &hex(b":1.9"))
+    make_msg(&hex(b"org.freedesktop.DBus.Peer"), &hex(b"GetMachineId"), "c", 77, &hex(b":1.9"), "-")
 }
 
 fn main() {
@@ -252,13 +253,13 @@ fn main() {
         let line = line.unwrap();
         let parts: Vec<&str> = line.split(' ').collect();
         match parts.as_slice() {
-            ["p", iface, member, typ, serial, sender] => {
+            ["p", iface, member, typ, serial, sender, rs] => {
                 let is_get_id = *member == hex(b"GetMachineId");
                 if is_get_id && !in_ns {
                     println!("R refused");
                     continue;
                 }
-                let msg = make_msg(iface, member, typ, serial.parse().unwrap(), sender);
+                let msg = make_msg(iface, member, typ, serial.parse().unwrap(), sender, rs);
                 let filter = filter_peer(&msg.dynheader);
                 let pre = if in_ns { read_id_file() } else { "unobserved".to_string() };
                 let draw = if in_ns { hex(&urandom12()) } else { "unobserved".to_string() };
